@@ -20,8 +20,10 @@ CloneViol(ev) ==
     V(ev.cloned, "CloneReturned")
     \cup (IF ~ev.cloned THEN {} ELSE
           V(Len(ev.cloneGraph) = Len(ev.srcGraph) /\ \A k \in 1..Len(ev.srcGraph) :
-                k > Len(ev.cloneGraph) \/ (ev.cloneGraph[k].type = ev.srcGraph[k].type /\ ev.cloneGraph[k].cid = ev.srcGraph[k].cid), "SameContentAsSource")
-          \cup V(Len(ev.cloneGraph) # Len(ev.srcGraph) \/ \A k \in 1..Len(ev.srcGraph) : ev.cloneGraph[k].refs = ev.srcGraph[k].refs, "SameReferenceStructure")
+                k > Len(ev.cloneGraph) \/ (ev.cloneGraph[k].type = ev.srcGraph[k].type
+                                           \* (block 1 is the shape itself: it carries the new name, inline in files without a string table)
+                                           /\ (k = 1 \/ ev.cloneGraph[k].cid = ev.srcGraph[k].cid)), "SameContentAsSource")
+          \cup V(Len(ev.cloneGraph) # Len(ev.srcGraph) \/ \A k \in 1..Len(ev.srcGraph) : (ev.cloneGraph[k].refs = ev.srcGraph[k].refs /\ ev.cloneGraph[k].ptrs = ev.srcGraph[k].ptrs), "SameReferenceStructure")
           \cup V(ev.dangling = 0, "EveryReferenceResolvesInDestination")
           \cup V(ev.sharedWithSource = 0, "SelfContained")
           \cup V(ev.cloneBones = ev.srcBones, "SameBoneNames")
